@@ -19,13 +19,34 @@ instance : LE Rank := ⟨fun a b => a.toNat ≤ b.toNat⟩
 instance (a b : Rank) : Decidable (a ≤ b) := inferInstanceAs (Decidable (a.toNat ≤ b.toNat))
 end Rank
 
-/-- What a check returns (`issue.Issue(...)` before the tester fills in defaults). -/
+/-- A check's result with its location selector resolved (`lineno`/`col_offset` as passed to
+`Issue(...)`, `none` = left to the tester's defaults). -/
 structure Raw where
   id : Str := []          -- `test_id`; empty unless the check names it (only the blacklist does)
   sev : Rank
   conf : Rank
   lineno : Option Nat := none
   col : Option Nat := none
+deriving DecidableEq, Repr, Inhabited
+
+/-- How a check locates its finding.  Checks decide on the shape of the code; *where* the finding
+is reported is one of a few selectors resolved by the tester against the visited node:
+the context default, the node's own first line (`context.node.lineno`), the line of the first
+present keyword among `names` (`get_lineno_for_call_arg`, `a or b` chains), or an absolute position
+(file-level checks). -/
+inductive LocSel where
+  | ctx
+  | node
+  | kw (names : List String)
+  | abs (line : Nat) (col : Nat)
+deriving DecidableEq, Repr, Inhabited
+
+/-- What a check returns (`issue.Issue(...)`): ranks, optional explicit test ID, location selector. -/
+structure PRaw where
+  id : Str := []
+  sev : Rank
+  conf : Rank
+  loc : LocSel := .ctx
 deriving DecidableEq, Repr, Inhabited
 
 /-- The location part of the raw context built by `pre_visit` / `visit_Str` / `process`. -/
@@ -59,11 +80,11 @@ structure Check where
   id : Str
   name : Str
   kinds : List Str
-  run : Env → M (Option Raw)
+  run : Env → M (Option PRaw)
 
 /-- A plugin check: plugins never name their test ID (the tester fills it in), which the
 constructor makes true by construction. -/
-def Check.plugin (id name : String) (kinds : List Str) (f : Env → M (Option Raw)) : Check :=
+def Check.plugin (id name : String) (kinds : List Str) (f : Env → M (Option PRaw)) : Check :=
   { id := id.toList, name := name.toList, kinds := kinds,
     run := fun e => (f e).map (Option.map fun r => { r with id := [] }) }
 
@@ -118,6 +139,20 @@ def emit (nm : NosecMap) (ctx : Ctx) (raw : Raw) : M Event := do
   | some s => if s.contains raw.id then pure (.skipped f) else pure (.finding f)
   | none => pure (.finding f)
 
+/-- line of the first keyword named `name` (`get_lineno_for_call_arg`) -/
+def kwLine (n : Node) (name : String) : Option Nat :=
+  match n.asCall? with
+  | some c => c.kwLineno name
+  | none => none
+
+/-- resolve a location selector against the visited node -/
+def PRaw.resolve (v : Visit) (p : PRaw) : Raw :=
+  match p.loc with
+  | .ctx => { id := p.id, sev := p.sev, conf := p.conf }
+  | .node => { id := p.id, sev := p.sev, conf := p.conf, lineno := v.node.line? }
+  | .kw names => { id := p.id, sev := p.sev, conf := p.conf, lineno := names.findSome? (kwLine v.node) }
+  | .abs l c => { id := p.id, sev := p.sev, conf := p.conf, lineno := some l, col := some c }
+
 /-- `if result.test_id == "": result.test_id = test._test_id` — plugins do not name their ID,
 the tester fills it in; only the blacklist names the matching rule's ID itself. -/
 def fillId (c : Check) (raw : Raw) : Raw := if raw.id.isEmpty then { raw with id := c.id } else raw
@@ -127,8 +162,8 @@ def runCheck (nm : NosecMap) (env : Env) (c : Check) : List Event :=
   match c.run env with
   | .error _ => [.crash c.name]
   | .ok none => []
-  | .ok (some raw) =>
-    match emit nm env.ctx (fillId c raw) with
+  | .ok (some praw) =>
+    match emit nm env.ctx (fillId c (praw.resolve env.v)) with
     | .ok e => [e]
     | .error _ => [.crash c.name]
 
